@@ -579,6 +579,18 @@ def _s3(program, res):
             res.fail_at("C12-S3", ini, f"foreign-scalar-printed-with-its-own-repr:{cls_.name}",
                         f"{cls_.name} stores the caller's items as given and prints each with repr: a mapv dictionary built from numpy values "
                         f"(dict(zip(codes.k.values, codes.v.values))) prints {{np.int64(1): np.float64(10.5)}}, which eval_da_ops can not read (unknown symbol np)")
+    # ListTerm: its printer falls back to str(item) for an item that is not a term (strings lose their quotes) and its column scan calls
+    # item.get_column_names: the constructor therefore has to hold terms only
+    lt = program.cls("expr_rep", "ListTerm").methods.get("__init__")
+    res.analysed(lt)
+    wraps = any(isinstance(st, ast.Assign) and unparse(st.targets[0]) == "self.value"
+                and any(isinstance(c, ast.Call) and (dotted_name(c.func) or "") in ("Value", "enc_value") for c in ast.walk(st.value)) for st in ast.walk(lt.node))
+    if wraps:
+        res.ok("C12-S3", "ListTerm holds terms: plain items given to it are wrapped as values")
+    else:
+        res.fail_at("C12-S3", lt, "list-items-kept-raw",
+                    "ListTerm keeps plain Python items as given: col('x').is_in(['a', 'b']) prints 'x.is_in([a, b])' (no quotes, not re-readable) and adding the step raises "
+                    "AttributeError: 'str' object has no attribute 'get_column_names'")
     # dict keys of ops printed with repr in node printers: k.__repr__() + ": " + opi.to_python().__repr__()
     for cname in ("ExtendNode", "ProjectNode"):
         pr = program.method("view_representations", cname, "to_python_src_", inherited=False)
